@@ -50,7 +50,7 @@ def load_known():
     return json.load(open(p)).get('findings', [])
 
 def known_ids(ctx):
-    return [k['id'] for k in ctx.known if k.get('status') == 'finding' and k.get('property') == ctx.id]
+    return [k['id'] for k in ctx.known if k.get('status') == 'finding' and (k.get('property') == ctx.id or ctx.id in k.get('also', []))]
 
 # ------------------------------------------------------------------ build
 def build_driver(ctx, race=False):
